@@ -423,6 +423,36 @@ Theorem C07_metatype_reference_target :
       if hd then (if is_obj w && negb addref_ok then MwRefused BadOperation else MwRef (is_obj w) old) else MwQuery.
 Proof. exact metatype_wrap_ref. Qed.
 
+(* ---- VALUES WITHOUT A DATA ADDRESS (value._addr == 0, MPT_VALUE_INIT(type, 0)); [from] = None.
+   The converters read such a source as 0.  [value_convert_a p] / [iterator_consume_a p] /
+   [value_convert_flt_a p]: p = value_convert.c as patched by docs/C07_null_raw_copy.diff or not. *)
+(* as patched an address-less value IS the value 0 of its type: C07_value_convert_exact,
+   C07_iterator_consume_exact, ... speak about it *)
+Theorem C07_null_value_is_zero :
+  forall sk tk hd, value_convert_a true sk None tk hd = value_convert sk 0 tk hd.
+Proof. exact value_convert_a_null_patched. Qed.
+Theorem C07_null_value_consume_is_zero :
+  forall sk tk hd, iterator_consume_a true sk None tk hd = iterator_consume sk 0 tk hd.
+Proof. exact iterator_consume_a_null_patched. Qed.
+(* patched or not: the query never touches the address *)
+Theorem C07_null_value_query :
+  forall p sk tk, value_convert_a p sk None tk false = value_convert sk 0 tk false.
+Proof. exact value_convert_a_null_query. Qed.
+(* patched or not: the value 0, or (unpatched only) a fault of the raw copy of the value's own type
+   into a destination after the converter refused *)
+Theorem C07_null_value_cases :
+  forall p sk tk hd,
+    value_convert_a p sk None tk hd = value_convert sk 0 tk hd \/
+    (value_convert_a p sk None tk hd = CFault /\ p = false /\ hd = true /\ sk = tk /\ int_conv_ok sk 0 tk hd = false).
+Proof. exact value_convert_a_null_cases. Qed.
+(* floating values: 0.0, never a fault, patched or not *)
+Theorem C07_null_float_value_is_zero :
+  forall p src tk hd, flt_src src -> value_convert_flt_a p src None tk hd = value_convert_flt src 0 tk hd.
+Proof. exact value_convert_flt_a_null. Qed.
+Theorem C07_null_float_value_never_faults :
+  forall p src from tk hd, flt_src src -> value_convert_flt_a p src from tk hd <> FFault.
+Proof. exact value_convert_flt_a_never_faults. Qed.
+
 (* ---- mpt_iterator_consume, ANY iterator (value or none, advance succeeds or fails), any
    target code incl. 0 = skip: the destination receives bytes only after BOTH the conversion and
    the advance succeeded, exactly sizeof(target) of them, and the source type is returned ... *)
@@ -628,6 +658,16 @@ Example C07_ex_known_finding :
 Proof. vm_compute. reflexivity. Qed.
 
 (* ---- the layers around the converters ---- *)
+(* an int32 without address asked for int32 with a destination: 0 stored, code 0 (through the iterator: 'i' = 105);
+   UNPATCHED, of the nine scalar source codes asked for their own type only 'c' (99; 0 is no graphic character, the
+   converter refuses, the raw copy reads the null address) faults *)
+Example C07_ex_null_value :
+  vconv 105 0 105 true = OInt 0 0 /\ value_convert_a false 105 None 105 true = value_convert 105 0 105 true /\
+  observe (tty_of_code 105) true (iterator_consume_a false 105 None 105 true) = OInt 0 105 /\
+  filter (fun k => match value_convert_a false k None k true with CFault => true | _ => false end)
+         [99; 98; 121; 110; 113; 105; 117; 120; 116] = [99] /\
+  value_convert_a true 99 None 99 true = Done (StInt CChar 0) 0.
+Proof. repeat split; vm_compute; reflexivity. Qed.
 (* a string pointer ('s' = 115) asked for an int32: refused; for itself: the 8 pointer bytes; a
    terminated char vector ('C' = 67) as string: its text; an int32 as its own vector ('I' = 73): { &value, 4 };
    an identifier (0x800, managed) is not copied raw *)
@@ -722,6 +762,12 @@ Print Assumptions C07_iterator_writes_only_after_advance.
 Print Assumptions C07_iterator_error_leaves_destination.
 Print Assumptions C07_iterator_query_same.
 Print Assumptions C07_iterator_is_consume.
+Print Assumptions C07_null_value_is_zero.
+Print Assumptions C07_null_value_consume_is_zero.
+Print Assumptions C07_null_value_query.
+Print Assumptions C07_null_value_cases.
+Print Assumptions C07_null_float_value_is_zero.
+Print Assumptions C07_null_float_value_never_faults.
 Print Assumptions C07_convert_string_every_numeric_code.
 Print Assumptions C07_convert_string_patch_changes_only_zero.
 Print Assumptions C07_convert_string_exact_patched_or_not.
